@@ -285,7 +285,7 @@ func c17Key(r *mon.Run, rng *rand.Rand, bits, nb, nLeaves, keyNo int) {
 	r.Set("leaf_kinds", len(kindNames))
 	rng.Shuffle(len(kindNames), func(a, b int) { kindNames[a], kindNames[b] = kindNames[b], kindNames[a] })
 	covered := 0
-	for t := 0; t < nLeaves; t++ {
+	for t := 0; covered < nLeaves && t < 4*nLeaves; t++ {
 		kind := kindNames[t%len(kindNames)]
 		pos := kinds[kind]
 		var li int
